@@ -163,6 +163,11 @@ def run_vx_unit(unit: str, repo: str, scratch: str, tier: str, log: List[str]):
     if vacuous:
         obls.append(Obligation(f"vx:{unit}:<vacuity>", "VX", unit, "<vacuity>", "undecided", "verus/z3",
                                detail={"reason": "precondition canaries were PROVED (contradictory requires or axioms): " + ", ".join(vacuous)}))
+    lemma_names = [o.name for o in obls if o.status == "failed" and (o.name.startswith("lemma_") or o.name.startswith("theorem_"))]
+    if "<none>" in errs_by_fn:
+        errs_by_fn["<none>"] = [d for d in errs_by_fn["<none>"] if not any(n in (d.get("rendered") or "") for n in lemma_names)]
+        if not errs_by_fn["<none>"]:
+            del errs_by_fn["<none>"]
     if "<none>" in errs_by_fn:
         d = errs_by_fn["<none>"][0]
         obls.append(Obligation(f"vx:{unit}:<unlocated>", "VX", unit, "<unlocated>", "undecided", "verus",
